@@ -6,6 +6,7 @@ package app
 
 import (
 	"crypto/hmac"
+	crand "crypto/rand"
 	"crypto/sha256"
 	"context"
 	"encoding/json"
@@ -164,6 +165,11 @@ func (authHarness) Run(spec any) (res verifsim.RunResult) {
 		synctest.Test(admT, func(t *testing.T) {
 			s = verifsim.New(sp.Seed, sp.Strat)
 			s.MaxSteps = 400000
+			// the product draws its nonces from crypto/rand: seeded per run, so that a run
+			// whose verdict depends on a nonce (it never should) still replays
+			oldRand := crand.Reader
+			crand.Reader = &authSeededRand{r: verifsim.NewSplitMix(sp.Seed ^ 0x6e6f6e6365)}
+			defer func() { crand.Reader = oldRand }()
 			verifsim.S = s
 			verifsim.Watch(s)
 			verifsim.SetName("main")
@@ -496,4 +502,19 @@ func atkMsg(role byte, nonce, mac []byte) []byte {
 	b := []byte{1, role}
 	b = append(b, nonce...)
 	return append(b, mac...)
+}
+
+// authSeededRand stands in for crypto/rand.Reader during a run.
+type authSeededRand struct {
+	mu sync.Mutex
+	r  *verifsim.SplitMix
+}
+
+func (a *authSeededRand) Read(p []byte) (int, error) {
+	a.mu.Lock()
+	defer a.mu.Unlock()
+	for i := range p {
+		p[i] = byte(a.r.Next() >> 24)
+	}
+	return len(p), nil
 }
